@@ -24,6 +24,12 @@ def plan(tier, seed):
                  payload=dict(func="vf.pyshim.lemmas:range_index", kwargs=dict(max_step=6)))]
     wc = wc_lattice.jobs("C01", tier)
     jobs += wc if tier == "thorough" else wc[:6]
+    # text/bytes values: pack -> unpack round trip of the BYTE_ARRAY codec without trailing padding (dictionary pages,
+    # v2 data pages), lifted speedups.pyx
+    from . import bytearray as BA
+    jobs += BA.jobs("C01", tier, which=("h_pack_unpack", "h_unpack"))
+    jobs.append(ch("C01", "vf/pyshim/h_skip.py", "h_skip_nulls", t,
+                   ["core.read_col", "core.read_data_page", "core.read_def", "core.skip_definition_bytes"]))
     # level / index streams: the decoder side (E1) on the shapes the writer produces
     lv = []
     for n in (0, 1, 7, 8, 9, 16, 17, 24):
